@@ -3,7 +3,7 @@ import json
 
 from common import proof_status
 from opt_common import gen_pairs, correspond_caf, pool, rand_rgb, w_routine, w_steps
-from proto import bitsf, fbits, run_lines
+from proto import t3, bitsf, fbits, run_lines
 
 MATCHERS = {}
 
@@ -114,7 +114,7 @@ def check(run):
         rm = run_lines(lines, chunks=16)
         depairs, deidx = [], []
         for i, (c, r, m) in enumerate(zip(rc, ri, rm)):
-            rs = "none" if r is None else ("raise " + r[1] if r and r[0] == "raise" else "%d %d %d" % tuple(r))
+            rs = "none" if r is None else ("raise " + r[1] if r and r[0] == "raise" else t3(r, "", " "))
             if rs != m.strip():
                 run.diverge({"bs": "binary_search_lightness==Cm.binarySearch", "gd": "gradient_descent_oklch==Cm.gradientDescent",
                              "gen": "generate_accessible_color==Cm.genAccessible"}[c[0]], list(c), rs, m)
